@@ -270,9 +270,9 @@ func RunCheck(prop, tier string) int {
 	t0 := time.Now()
 	budget := c.Budget[tier]
 	if budget == 0 {
-		budget = 60 * time.Second
+		budget = 150 * time.Second
 		if tier == "thorough" {
-			budget = 10 * time.Minute
+			budget = 20 * time.Minute
 		}
 	}
 	deadline := t0.Add(budget)
